@@ -805,7 +805,21 @@ class Verifier:
                 kwargs = {}
             if spec.kind == 'lemma':
                 st.phase = 'post'
-                I.call(spec.fn, [], byname)
+                # a lemma may stub callees too (sequences of calls on an object whose collaborators are opaque)
+                lhooks = {}
+                lstubs = spec.opts.get('stubs', {})
+                if isinstance(lstubs, (list, tuple)):
+                    lstubs = {s_: None for s_ in lstubs}
+                for sname, ret in lstubs.items():
+                    tfn = self.resolve_target(sname)
+                    if isinstance(tfn, PropertyModel):
+                        tfn = tfn.fget
+                    lhooks[tfn] = self.make_stub(st, sname, ret)
+                I.contract_hooks = lhooks
+                try:
+                    I.call(spec.fn, [], byname)
+                finally:
+                    I.contract_hooks = {}
                 covers[0] += 1
                 return None
             st.phase = 'pre'
